@@ -728,10 +728,23 @@ WarnRagged(T) == IF T = <<>> THEN <<>> ELSE
                  LET bad == {k \in 1..Len(T) : Len(T[k]) # Len(T[1])} IN
                  IF bad = {} THEN <<>> ELSE LET k == CHOOSE k \in bad : \A m \in bad : k <= m IN <<1, Len(T[1]), k, Len(T[k])>>
 
+\* what a text back-end (CSV file, command line, sqlite->csv) shows for a typed value (C13): ints in decimal, None as empty
+RECURSIVE DigitsOf(_)
+DigitsOf(n) == IF n < 10 THEN <<48 + n>> ELSE DigitsOf(n \div 10) \o <<48 + (n % 10)>>
+StrOf(v) == CASE v[1] = "s" -> v[2]
+              [] v[1] = "n" -> <<>>
+              [] v[1] = "i" -> (IF v[2] < 0 THEN <<45>> \o DigitsOf(0 - v[2]) ELSE DigitsOf(v[2]))
+              [] OTHER -> <<63>>
+Stringify(rows) == [k \in 1..Len(rows) |-> [c \in 1..Len(rows[k]) |-> StrOf(rows[k][c])]]
+TextOnly(rows) == \A k \in 1..Len(rows) : \A c \in 1..Len(rows[k]) : rows[k][c][1] \in {"s", "n", "i"}
+HasNoneCell(rows) == \E k \in 1..Len(rows) : \E c \in 1..Len(rows[k]) : rows[k][c] = None
+
 CaseOf == [q |-> q, A |-> A, B |-> B, hasHdr |-> hasHdr, breakAt |-> breakAt,
            hdrA |-> HdrA, hdrB |-> HdrB,
            expect |-> [out |-> IF Ref.err = NoErr THEN RefOut ELSE <<>>, err |-> Ref.err,
                        hashdr |-> (Ref.err = NoErr /\ HeaderRef.has), hdr |-> HeaderRef.names,
+                       outs |-> IF Ref.err = NoErr /\ TextOnly(RefOut) THEN Stringify(RefOut) ELSE <<>>,
+                       textonly |-> (Ref.err = NoErr /\ TextOnly(RefOut)), nonewarn |-> (Ref.err = NoErr /\ HasNoneCell(RefOut)),
                        pulllimit |-> PullLimit, streaming |-> Streaming(q),
                        raggedA |-> WarnRagged(A), raggedB |-> WarnRagged(B), fullscan |-> (pc = "done" /\ pulled = Len(A) + 1)]]
 
